@@ -8,6 +8,7 @@
 
 pub mod daser;
 pub mod header_ex;
+pub mod header_ex_client;
 pub mod mock_p2p;
 pub mod pruner;
 pub mod ranges;
